@@ -83,7 +83,7 @@ def new_entry_points(pid, repo, cfg, props):
     out = []
     for f in files_of_property(pid, cfg, props):
         path = os.path.join(repo, f)
-        if not os.path.exists(path) or f not in inv:
+        if not os.path.exists(path) or f not in inv or f.startswith("__"):
             continue
         try:
             cur = entry_points(path)
@@ -93,4 +93,199 @@ def new_entry_points(pid, repo, cfg, props):
         for e in cur:
             if e not in known:
                 out.append(f"{f}: {e}")
+    return out
+
+
+# ---------------------------------------------------------------------------------------------------------------------
+# Functions that are under NO contract (not extracted by a Verus unit, not executed by a Kani harness): their text is
+# hashed, and a check that reads the file answers UNDECIDED when such a function's text has changed — "holds" is only
+# ever said about a tree whose every modified function is under contract.  Formatting impls (Debug / Display /
+# Error::source) and the serde impls are exempt: no listed property depends on them.
+import hashlib
+
+EXEMPT = re.compile(r"impl[^/]*\b(fmt :: Debug|fmt :: Display|Debug|Display|Error|Serialize|Deserialize < 'de >)\b[^/]* for ")
+
+
+def all_fns(path):
+    s = Source(path)
+    out = {}
+
+    def walk(lo, hi, trail):
+        for it in _items_in(s.src, s.toks, lo, hi):
+            h = it.header.split()
+            if any("test" in a for a in it.attrs) or any(_foreign_cfg(a) for a in it.attrs) or any("cfg(kani)" in a for a in it.attrs):
+                continue
+            if h[0] == "fn":
+                name = re.match(r"fn\s+(\w+)", it.header).group(1)
+                label = " / ".join(trail + [name])
+                text = re.sub(r"\s+", " ", " ".join(t.text for t in s.toks[it.start:it.body_close + 1] if t.kind not in ("ws", "comment")))
+                out[label] = (hashlib.sha256(text.encode()).hexdigest()[:16], it.start)
+            elif h[0] in ("impl", "mod", "trait"):
+                if h[0] == "mod" and len(h) > 1 and h[1] in ("tests", "test", "verif_kani"):
+                    continue
+                if it.body_open is None:
+                    continue
+                walk(it.body_open + 1, it.body_close, trail + [re.sub(r"\s+", " ", it.header)[:70]])
+    walk(0, len(s.toks), [])
+    return out, s
+
+
+def verus_covered(repo):
+    """file -> set of token start indices of fn items extracted by some Verus unit"""
+    cov = {}
+    srcs = {}
+    for u in sorted(glob.glob(os.path.join(ROOT, "units", "*", "unit.rs"))):
+        txt = open(u).read()
+        variants = [{}]
+        vj = os.path.join(os.path.dirname(u), "variants.json")
+        if os.path.exists(vj):
+            variants = list(json.load(open(vj)).values())
+        for m in re.finditer(r'^//@extract file=(\S+) item="([^"]+)"', txt, re.M):
+            for v in variants:
+                f = m.group(1)
+                for k, val in v.items():
+                    f = f.replace("${%s}" % k, val)
+                try:
+                    if f not in srcs:
+                        srcs[f] = Source(os.path.join(repo, f))
+                    it = srcs[f].find(m.group(2))
+                    cov.setdefault(f, set()).add(it.start)
+                except Exception:
+                    pass
+    return cov
+
+
+def kani_executed():
+    """file -> set of labels executed by a harness (from coverage_kani.md) + functions under a Kani function contract"""
+    ex, notex = {}, {}
+    p = os.path.join(ROOT, "coverage_kani.md")
+    cur = None
+    if os.path.exists(p):
+        for l in open(p):
+            m = re.match(r"^\* `([^`]+)`:", l)
+            if m:
+                cur = m.group(1); notex.setdefault(cur, set()); continue
+            m = re.match(r"^\s+\* NOT executed: (.*)$", l)
+            if m and cur:
+                notex[cur].update(x.strip() for x in m.group(1).split(";"))
+    contracted = {}
+    for k in glob.glob(os.path.join(ROOT, "kani", "*", "unit.json")):
+        j = json.load(open(k))
+        for c in j.get("contracts", []):
+            contracted.setdefault(c["file"], set()).add(c["item"].replace("fn ", "").strip())
+    return notex, contracted
+
+
+def uncontracted_table(repo, files):
+    vc = verus_covered(repo)
+    notex, contracted = kani_executed()
+    table = {}
+    for f in files:
+        path = os.path.join(repo, f)
+        if not os.path.exists(path):
+            continue
+        fns, _ = all_fns(path)
+        for label, (sha, start) in fns.items():
+            if EXEMPT.search(label + " "):
+                continue
+            if start in vc.get(f, set()):
+                continue
+            if f in notex:       # a Kani-injected file: executed unless listed as NOT executed
+                short = label
+                if short not in notex[f]:
+                    continue
+                if any(label.replace(" / ", " / ").endswith(c.split(" / ")[-1]) and c.split(" / ")[0] in label for c in contracted.get(f, ())):
+                    continue
+            table.setdefault(f, {})[label] = sha
+    return table
+
+
+def modified_uncontracted(pid, repo, cfg, props):
+    inv = load().get("__uncontracted__", {})
+    out = []
+    for f in files_of_property(pid, cfg, props):
+        if f not in inv:
+            continue
+        path = os.path.join(repo, f)
+        if not os.path.exists(path):
+            continue
+        try:
+            fns, _ = all_fns(path)
+        except Exception:
+            continue
+        for label, sha in inv[f].items():
+            if label in fns and fns[label][0] != sha:
+                out.append(f"{f}: {label}")
+    return out
+
+
+# ---------------------------------------------------------------------------------------------------------------------
+# Per property: a function of a file the property is ANCHORED in whose text changed must be under contract in one of
+# THAT property's own units (or executed by one of its Kani units) — otherwise the property's check would say "holds"
+# about a change none of its obligations looks at (it may well be reported under a sibling property).
+def _unit_labels(unit, repo, f):
+    """labels of the fn items of file f that Verus unit `unit` (name[@variant]) extracts, on the current tree"""
+    name, _, var = unit.partition("@")
+    p = os.path.join(ROOT, "units", name, "unit.rs")
+    if not os.path.exists(p):
+        return set()
+    txt = open(p).read()
+    variables = {}
+    vj = os.path.join(ROOT, "units", name, "variants.json")
+    if var and os.path.exists(vj):
+        variables = json.load(open(vj)).get(var, {})
+    out = set()
+    try:
+        fns, src = all_fns(os.path.join(repo, f))
+    except Exception:
+        return out
+    by_start = {start: label for label, (sha, start) in fns.items()}
+    for m in re.finditer(r'^//@extract file=(\S+) item="([^"]+)"', txt, re.M):
+        ff = m.group(1)
+        for k, v in variables.items():
+            ff = ff.replace("${%s}" % k, v)
+        if ff != f:
+            continue
+        try:
+            it = src.find(m.group(2))
+            if it.start in by_start:
+                out.add(by_start[it.start])
+        except Exception:
+            pass
+    return out
+
+
+def changed_outside_own_units(pid, repo, cfg, props):
+    inv = load().get("__all__", {})
+    notex, contracted = kani_executed()
+    pc = cfg["properties"].get(pid, {})
+    anchors = []
+    for p in props:
+        if p["id"] == pid:
+            anchors = p["anchors"]["files"]
+    out = []
+    for f in anchors:
+        if f not in inv or not os.path.exists(os.path.join(repo, f)):
+            continue
+        try:
+            fns, _ = all_fns(os.path.join(repo, f))
+        except Exception:
+            continue
+        changed = [l for l, (sha, _) in fns.items() if l in inv[f] and inv[f][l] != sha and not EXEMPT.search(l + " ")]
+        if not changed:
+            continue
+        covered = set()
+        for u in pc.get("verus", []):
+            covered |= _unit_labels(u, repo, f)
+        kani_files = set()
+        for k in pc.get("kani", []):
+            j = json.load(open(os.path.join(ROOT, "kani", k, "unit.json")))
+            for inj in j.get("inject", []):
+                kani_files.add(inj["file"])
+        for l in changed:
+            if l in covered:
+                continue
+            if f in kani_files and l not in notex.get(f, set()):
+                continue
+            out.append(f"{f}: {l}")
     return out
